@@ -83,7 +83,8 @@ def leaf_values(shape, rich=False):
     if shape == "address":
         return [bytes(32), bytes(range(32))]
     if shape == "string":
-        return [b"", b"a", b"xyz" * 30] if rich else [b"", b"hi"]
+        # 300 bytes crosses the one-byte length boundary of the uint16 length prefix
+        return [b"", b"a", b"xyz" * 30, b"q" * 300] if rich else [b"", b"hi", b"q" * 300]
     raise AssertionError(shape)
 
 
@@ -103,6 +104,9 @@ def values(shape, cap=8, rich=False):
     if k == "darr":
         ev = values(shape[1], cap, rich)
         out = [[], [ev[0]], [ev[-1]], [ev[i % len(ev)] for i in range(2)], [ev[(i + 1) % len(ev)] for i in range(3)]]
+        if shape[1] == "bool":
+            # bit-packing boundaries
+            out = [[], [True], [i % 3 == 0 for i in range(8)], [i % 2 == 0 for i in range(9)], [i % 5 != 0 for i in range(17)]]
         return _dedup(out)[:cap]
     cols = [values(s, cap, rich) for s in shape[1:]]
     if not cols:
@@ -155,7 +159,9 @@ def shapes(tier):
         for n in (1, 2, 3, 9):
             d1.append(["sarr", b, n])
         d1.append(["darr", b])
-    tuples = [["tuple", a] for a in BASE] + [["tuple", a, b] for a in BASE for b in BASE]
+    for n in (7, 8, 16, 17):
+        d1.append(["sarr", "bool", n])
+    tuples =[["tuple", a] for a in BASE] + [["tuple", a, b] for a in BASE for b in BASE]
     if tier == "thorough":
         tuples += [["tuple", a, b, c] for a in BASE for b in BASE for c in BASE]
     named = [["ntuple", a] for a in BASE] + [["ntuple", a, b] for a in ("bool", "uint16", "string", "address") for b in BASE]
